@@ -24,6 +24,31 @@ CHECKS = {
    note="Trusted: Coq kernel (no axioms); harness and generators; `process` modelled as 'push every dependency'; hash sets as lists (never iterated); fuel = recursion depth, 'OutOfFuel for all fuel' corresponds to stack overflow (observed as process abort); GDS struct names assumed distinct; lock poisoning not modelled; the choice of as-found vs repaired model is made by a textual check for a `pending` field in the three orderer structs.",
    technique="Coq proof over executable DFS models + differential correspondence (vm_compute) against seven entry points",
    design="5/C17"),
+ "C08": dict(
+   text="Coq theorems over an executable model of the gridded-layout compiler (Tetris/Stack.v, Tracks.v, Compile.v; Properties/C08.v): cut_or_block keeps a track tiled and changes only the requested interval, returns Ok exactly when the interval lies inside one wire/rail segment and never panics; set_net nets the first covering segment only; any Ok sequence of cut/block/net operations keeps the track tiled with exactly the requested cuts and blockages; the net phase changes no geometry and nets only pieces covering an assignment crossing; for every period index, flipped or not and any Repeat structure, to_layer_period draws each signal track at the specification's position track_pos_m (defined from the flattened pattern, independent of the code's cursors), and the repaired center/span return that position; per-track realisation (rectangles + requested cuts + blockages tile [0,span] at the track's start/width); compile never panics on drawable stacks. PARTIAL: the whole-cell statement C08_full (composition of the per-track theorems through export_period/layer/layout, vias centred and of the stack's size, rails named) is a Definition, not a theorem; it is evaluated by the spec oracle (CompileSpec.v: tiles, centred, via_okb, nets_okb) on the implementation's output for every generated case. The code as found is proved to violate the property (five closed witnesses: flip, reflected blockage, usize underflow, metals bounds, odd sizes), fixed by five commits. Correspondence: a family of stacks (repo sample stack, offsets, overlaps, Repeat patterns, flip on/off, symmetric/asymmetric, odd sizes) x generated cells with cuts, assignments and reflected instances through Library::to_raw, shape lists compared in order.",
+   note="Trusted: Coq kernel (no axioms); harness and generators; DbUnits/usize as Z with explicit panic branches; slot-map/Ptr identity as indices; raw layer numbers as opaque tags; the composition gap named above; HashMap-free code paths assumed (supported by C20 runs).",
+   technique="Coq proof over executable compiler model (per-track and track-position theorems) + spec-oracle differential correspondence against Library::to_raw",
+   design="5/C08"),
+ "C09": dict(
+   text="Coq theorems over an executable model of the relative placer (Tetris/Placer.v; Properties/C09.v, 21 theorems): for all 4 sides x orthogonal alignments x 3 separation kinds x 4 reflections of the placed instance x every reference box, a resolved location makes the instance's reflection-aware bounding box touch the reference box on the requested side at the requested separation, flush on the alignment edge; after placement every instance of every cell is absolute; each location is a function of the relation graph alone, hence independent of the listing order (success and failure alike); arrays expand to count copies at successive multiples of the pitch, mirrored by the array's reflection, nested arrays by induction; cyclic and self-referential relations return the error and the orderer is total. Unimplemented corners of the code (Center/Ports alignment, relative-to-array) are proved to be panics of the model and reported as outside the property's space. Correspondence: random placement programs (chains/trees depth 1-8, shuffled listings, every option combination, cycles of length 1-4, arrays) through Placer::place, ~15k calls quick / ~116k thorough, exact locations compared.",
+   note="Trusted: Coq kernel (no axioms); harness and generators; PrimPitches keep their direction tag (mixed-tag addition = panic, as the code); placeables are indices (pointer identity); locks not modelled (single thread; SizeOf(the cell being placed) self-deadlock is reported, outside the space).",
+   technique="Coq proof over executable placer model + differential correspondence (vm_compute) against Placer::place",
+   design="5/C09"),
+ "C12": dict(
+   text="Coq theorems over a model of Transform parametric in ANY commutative ring and ANY (cos, sin) pair (Geom/Transform.v; Properties/C12.v): cascade applies the child first, is associative with identity as unit; translate/rotate/reflect_vert are the maps they name (rotation counter-clockwise); the repaired from_instance equals cascade(translate, cascade(rotate, reflect-or-identity)) for every location, flag and angle, and the code as found does not (refuted: reflected, 90 degrees, (3,1) at (10,20) -> (9,23) vs (11,23); correct iff not reflected or sin = 0); flatten of a hierarchy of any depth emits every element moved by the composition of the placements on its path, innermost first; reflected placements have determinant -1, determinants multiply, signed areas scale by the determinant; at right angles the exact map is the specification's quarter-turn map. Float level (partial): the rounding behaviour of f64 matrices built from libm sin/cos of 0, +-90, +-180, +-270, 360 (table regenerated from the implementation on every run) is in the executable model and compared with the implementation on every chain of depth 1-2 over the 8 orientations x a 9x9 grid (exhaustive), sampled depth 3-8, extreme coordinates up to 2^40, and general angles against an exact rational reference at half-unit tolerance; no unbounded float-exactness theorem.",
+   note="Trusted: Coq kernel (no axioms); translator translate_libm.py + harness for the libm table; f64 multiply/add/round modelled exactly over dyadic Z pairs (validated by the correspondence); Layout::flatten modelled on a tree of layouts (shared cells unfolded).",
+   technique="Coq proof over ring-parametric transform model + differential correspondence (exact and float-level model, vm_compute) against Transform/Point::transform/Layout::flatten",
+   design="5/C12"),
+ "C16": dict(
+   text="Coq theorems over an executable model of LefImporter (Raw/RawLef.v with rust_decimal operations by contract in RawLefDec.v; Properties/C16.v): import_dist returns Ok n exactly when value*10000 is the integer n (and fits the coordinate type), the fractional-part error exactly when it is not an integer (never a rounded value), independently of the scale the decimal was written with; import_point keeps x and y distinct; a macro becomes one abstract with outline [(0,0),(W,0),(W,H),(0,H)], one shape per LEF rectangle/polygon/path in order on the layer of that name, ports merged by pin, obstructions as blockages; the library theorem lifts this to every macro; off-grid coordinates and sizes are rejected; the checker used by the correspondence is proved sound. The code as found is refuted (y := x; mantissa ignores the scale), repaired by two fix commits. Correspondence: generated macros with coordinates of 0-6+ decimals, negatives, trailing zeros, off-grid values, 96-bit boundaries, several layers, through LefImporter::import (~2k quick).",
+   note="Trusted: Coq kernel (no axioms); rust_decimal from_str/mul/fract/trunc/mantissa modelled by contract within 96-bit range (validated by the correspondence incl. the multiplication-overflow panic); harness builds LefLibrary values through the public builders; layer-number allocation (nextnum) modelled.",
+   technique="Coq proof over executable importer model + differential correspondence (vm_compute) against LefImporter::import",
+   design="5/C16"),
+ "C19": dict(
+   text="Coq theorems over an executable model of the tetris protobuf exporter and importer (Tetris/TProto.v, cell order = the C17 model; Properties/C19.v): for every placed, acyclic, well-formed library export succeeds, import of the exported message succeeds and the result is equivalent (library name; per cell name, abstract, layout name, metals, outline vectors, assignments, cuts, and per instance name, location, both reflections and the image of its target cell); exported messages list cells dependencies-first; every malformed message (undefined cell, missing outline/location, relative place, invalid outline) gives Err, and import/export never panic or run out of fuel outside the reported abstract-port todo!(); cyclic libraries export to Err; Outline::from_prim_pitches accepts exactly the valid outlines. Findings outside the property's list are proved as model facts (abstract ports panic on import/export; duplicate cell names misresolve). Correspondence: generated placed libraries (cell DAGs, shuffled listings, big values) and messages with one sub-message removed or corrupted at a time through ProtoExporter::export / ProtoLibImporter::import.",
+   note="Trusted: Coq kernel (no axioms); harness and generators; prost structs as plain records; Ptr identity as indices; usize/i64 conversions with explicit error branches.",
+   technique="Coq proof over executable exporter/importer model + differential correspondence (vm_compute) against conv::proto",
+   design="5/C19"),
 }
 REASON_PENDING = "not yet built in this round; planned in DESIGN.md section 5 (Coq model + correspondence)"
 def main():
